@@ -100,6 +100,10 @@ def mech_for_probe(rf, desc, amount, mode):
 
 def judge(rec, rnd, tmp, k):
     b = B.gen_budget(rnd, rules=rnd.choice(['rules', 'rules', 'csv']))
+    if rnd.random() < .12:
+        # any folder can be named as the config folder (tally up <dir>, TALLY_CONFIG); the settings then name their files relative to ITS parent
+        b['cfg_name'] = rnd.choice(['cfg-2025', 'my config', 'Config', 'settings.d'])
+        rec.count('budgets_with_another_config_folder_name')
     if b['rules_kind'] == 'rules' and rnd.random() < .5:
         # one merchant name fed by several rules with different categories (an amount-conditioned rule plus a plain one is the usual shape):
         # what up and explain report for that merchant depends on the order in which they feed the transactions to the analysis
